@@ -1488,7 +1488,12 @@ func (ex *Exec) floatOp(op token.Token, a, b F) Value {
 	case token.SUB:
 		return F{T: tb.RSub(a.T, b.T), D: d}
 	case token.MUL:
-		return F{T: tb.RMul(a.T, b.T), D: d}
+		m := tb.RMul(a.T, b.T)
+		if a.T == b.T && m.op == "rmul" {
+			// ground lemma: a square is non-negative
+			ex.axiom("sq"+strconv.Itoa(m.id), tb.RLe(tb.Rat(ratZero), m))
+		}
+		return F{T: m, D: d}
 	case token.QUO:
 		nz := tb.Not(tb.Eq(b.T, tb.Rat(ratZero)))
 		if nz != tb.True {
